@@ -143,6 +143,6 @@ def check(ctx):
     edge_cases(ctx, N)
     nsites = sum(1 for k in N.oor_sites)
     exempt = sum(1 for k, v in N.oor_sites.items() if v.get('exempt'))
-    ctx.rule('C15-D1 OutOfRange sites reached', nsites, nsites, floor=30, sample={'sites': nsites, 'exempt_custom_message': exempt})
+    ctx.rule('C15-D1 OutOfRange sites reached', nsites, nsites, floor=10, sample={'sites': nsites, 'exempt_custom_message': exempt})
     N.judge(allowed_causes=())
     ctx.cov['trusted_base'] += ['rustc MIR of the dev profile (overflow checks on)', 'vf/models.py rows: ' + ', '.join(sorted(I.models_used))[:600]]
